@@ -1,0 +1,13 @@
+//go:build verif
+
+package auth
+
+// Contracts for gocv (see /verif/DESIGN.md). Comment-only file.
+
+//@ package auth
+//@ import context "context"
+//@
+//@ func AppendRepositoryScope
+//@   trusted
+//@   ensures result != nil
+//@   modifies alloc, new elems[string]
